@@ -157,12 +157,14 @@ def work(item):
     kind = item[0]
     mc = mcx.worker_mc()
     viol, counts, nontriv = [], {"evaluations": 0, "skipped_panics": 0}, []
-    if kind == "plant":
+    if kind in ("plant", "plant-lite"):
         _, cases = item
         setup = [["rules_dir", mcx.RULES], ["pref", "TTS", "none"]]
         flat = []
         for label, t in cases:
             for plabel, pt, planted in plantings(t):
+                if kind == "plant-lite" and plabel not in ("noids", "all", "dup"):
+                    continue          # the deviation corpus: ids on nothing / on everything / one duplicate (the one-at-a-time plantings stay with the spine corpus)
                 flat.append((label, plabel, pt, planted))
         _, res = mc.run_cases(setup, [[["mathml", terms.doc(pt)]] for _, _, pt, _ in flat])
         for (label, plabel, pt, planted), r in zip(flat, res):
@@ -175,7 +177,7 @@ def work(item):
                 continue
             nontriv.append(hash((label, plabel)))
             for k, w in check_ids(label, plabel, pt, planted, val(r)):
-                viol.append((f"C09|{k}", f"{label} [{plabel}]: {w}", {"kind": "plant", "label": label, "plabel": plabel, "doc": terms.doc(pt), "planted": planted}))
+                viol.append((f"C09|{k}", f"{label} [{plabel}]: {w}", {"kind": kind, "label": label, "plabel": plabel, "doc": terms.doc(pt), "planted": planted}))
     else:
         _, engine, cases, seqs = item
         setup = [["rules_dir", mcx.RULES], ["pref", "TTS", engine], ["pref", "Bookmark", "true"], ["pref", "BrailleCode", "Nemeth" if engine != "SAPI5" else "UEB"]]
@@ -239,7 +241,7 @@ def confirm(replay, verbose=False):
     mcx._worker_mc = mc
     try:
         t = terms.parse_xml(replay["doc"]).kids[0]
-        if replay["kind"] == "plant":
+        if replay["kind"] in ("plant", "plant-lite"):
             # re-run exactly the planted document
             setup = [["rules_dir", mcx.RULES], ["pref", "TTS", "none"]]
             _, res = mc.run_cases(setup, [[["mathml", replay["doc"]]]])
@@ -273,6 +275,12 @@ def main(tier):
     jobs = []
     for i in range(0, len(corp), 60):
         jobs.append(("plant", corp[i:i + 60]))
+    # the single-deviation neighbourhood of the spine terms (shared with C01/C02): empty bases, wrappers, insertions, sibling pairs
+    have = {c[0] for c in corp}
+    devs = [c for c in canon_run.gen_cases("quick" if tier == "quick" else "thorough") if c[0] not in have]
+    run.count("deviation_terms", len(devs))
+    for i in range(0, len(devs), 300):
+        jobs.append(("plant-lite", devs[i:i + 300]))
     seqs1 = [(a,) for a in NAV1]
     seqs2 = [(a, b) for a in NAV1 for b in NAV1]
     hist_corp = small if tier == "quick" else corp
